@@ -12,7 +12,7 @@ import (
 
 // Admin returns a hook-free client acting as the given environment actor.
 func (w *World) Admin(actor string) *kmodel.Client {
-	return &kmodel.Client{S: w.S, Sch: Scheme, Map: Mapper, Actor: "env:" + actor}
+	return &kmodel.Client{S: w.S, Sch: Scheme, Map: Mapper, Actor: "env:" + actor, Manager: "kubectl-edit"}
 }
 
 // MustCreate creates obj as an environment actor.
